@@ -124,6 +124,25 @@ def sym_attr(I, o, name):
             if name in info.computed:
                 return info.computed[name](I, t)
             return _ObjMethod(info.methods[name], t)
+    # method of a repository (or repository-emitted) class looked up on a symbolic receiver of exactly that class:
+    # bound to the receiver; the call then goes through the callee's contract, or inlines its body
+    import types as _types
+    meth = [i for i in V.REG.by_id.values() if isinstance(i.pycls, type) and name not in i.fields
+            and isinstance(i.pycls.__dict__.get(name) or getattr(i.pycls, name, None), _types.FunctionType) and I.src.is_repo_class(i.pycls)]
+    if meth:
+        feas = [i for i in meth if I.p.feasible(z3.And(V.is_VObj(t), V.cls_of(t) == i.cid))]
+        if feas:
+            if len(feas) > 1:
+                raise Unsupported(f"method {name} on a receiver of several candidate classes")
+            info = feas[0]
+            c = z3.And(V.is_VObj(t), V.cls_of(t) == info.cid)
+            if not entailed(I, c):
+                I.p.oblige(f"no-raise@attr.{name}", c, "no-raise", detail=f"AttributeError: .{name}")
+                I.p.assume(c)
+            clos = I.src.closure_for_function(getattr(info.pycls, name))
+            if clos is None:
+                raise Unsupported(f"method {info.name}.{name} has no source under the tree")
+            return BoundMethod(o, clos)
     if name in STR_METHODS or name in DICT_METHODS or name in LIST_METHODS:
         # object classes may also define such names as fields (e.g. `.values`); fields win when the
         # receiver is known to be an object
@@ -1191,10 +1210,24 @@ def call_native(I, fn, args, kwargs):
     if isinstance(fn, type) and issubclass(fn, ast.AST):
         return make_ast_node(I, fn, args, kwargs)
     if isinstance(fn, type) and issubclass(fn, _GQL_NODE) and not args:
-        # graphql-core AST node classes: plain records of their keyword arguments
+        # graphql-core AST node classes (Node.__init__ of graphql-core 3.2): records of their keys; a key that is
+        # not passed is None, a list value is stored as a tuple, unknown keyword arguments are dropped
         if fn not in V.REG.by_cls:
             V.REG.register(fn, [k for k in fn.keys if k != "loc"])
-        return Obj(fn, dict(kwargs))
+        _used("graphql-core Node(**kwargs): one attribute per key (None when not passed), lists stored as tuples")
+        attrs = {}
+        for k in fn.keys:
+            if k == "loc":
+                continue
+            v = kwargs.get(k)
+            if isinstance(v, MList):
+                v = SV(V.VTuple(V.vl(v.t)))
+            elif isinstance(v, list):
+                v = tuple(v)
+            elif isinstance(v, SV):
+                v = SV(z3.If(V.is_VList(v.t), V.VTuple(V.vl(v.t)), v.t))
+            attrs[k] = v
+        return Obj(fn, attrs)
     if isinstance(fn, type) and fn in CLASS_MODELS:
         return CLASS_MODELS[fn](I, args, kwargs)
     sym_args = deep_symbolic(args) or deep_symbolic(kwargs)
